@@ -132,6 +132,28 @@ impl TryFrom<&AST> for GenericClass {
                                 arg_errs.push(vec![TypeErr::new(arg.pos, &msg)]);
                                 continue;
                             }
+                            // The constructor's argument list must be one Python can have as well.
+                            let (after_default, after_vararg) = class_args.iter().fold(
+                                (false, false),
+                                |(d, v), a: &GenericFunctionArg| (d || a.has_default, v || a.vararg),
+                            );
+                            let msg = if fun_arg.vararg && fun_arg.has_default {
+                                Some("A vararg cannot have a default")
+                            } else if fun_arg.vararg && after_vararg {
+                                Some("There can only be one vararg")
+                            } else if !fun_arg.vararg
+                                && !fun_arg.has_default
+                                && after_default
+                                && !after_vararg
+                            {
+                                Some("An argument without default cannot follow one with a default")
+                            } else {
+                                None
+                            };
+                            if let Some(msg) = msg {
+                                arg_errs.push(vec![TypeErr::new(arg.pos, msg)]);
+                                continue;
+                            }
                             if let Some(field) = field {
                                 class_args.push(fun_arg);
                                 argument_fields.insert(field.in_class(
